@@ -56,6 +56,8 @@ def gen_system(rng):
                 # counter passing 9999 -> 10000 ...): numeric and string order differ
                 edge = 10 ** rng.randint(1, 6)
                 pool = [e for e in range(edge - 6, edge + 6) if e > 0 and e not in used_tids]
+                if len(pool) < nt:       # the ids around that edge are taken already
+                    pool = [e for e in range(tid, tid + 50) if e not in used_tids]
                 tids = rng.sample(pool, nt)
             else:
                 tids = rng.sample(range(tid, tid + 50), nt)
@@ -132,7 +134,7 @@ def write_variant(d, desc, hist, metas, order):
 
 
 CONTRA = ["index-two-phyids-early", "phyid-two-indices-early", "two-appids", "two-ranks", "two-nranks", "rank>=nranks", "index-two-phyids", "phyid-two-indices",
-          "duplicate-tid", "no-cpus", "no-appid", "index-gap", "negative-index", "negative-rank", "appid-zero",
+          "duplicate-tid", "no-cpus", "no-appid", "index-gap", "index-gap-far", "negative-index", "negative-rank", "appid-zero",
           "rank-missing-in-one-proc", "nranks-missing"]
 
 
@@ -201,12 +203,12 @@ def contradiction(rng, desc, metas, kind):
     elif kind == "no-appid":
         for k in pk:
             metas[k]["ovni"].pop("app_id", None)
-    elif kind == "index-gap":
+    elif kind in ("index-gap", "index-gap-far"):
         # one index of 0..N-1 is missing: its CPU got an index just past the end (N, so that the largest
         # index equals the number of CPUs), a little further, or far away
         ncpu = len(l["cpus"])
         victim = rng.randrange(ncpu)
-        moved = ncpu + rng.choice([0, 0, 1, 3, 1000])
+        moved = ncpu if kind == "index-gap" else ncpu + rng.choice([1, 3, 1000])
         for k in lk:
             if "loom_cpus" in metas[k]["ovni"]:
                 for c in metas[k]["ovni"]["loom_cpus"]:
@@ -336,7 +338,7 @@ def main(argv):
                    "looms, 1-4 CPUs with random physical ids) and one fixed history; variants distribute app_id, rank/nranks "
                    "over non-empty thread subsets, split loom_cpus into overlapping sub-lists in arbitrary element order and "
                    "shuffle stream creation order; all variants must be accepted with byte-identical outputs in the "
-                   "documented row order. Single contradictions (15 kinds) must end with exit 1 and an ERROR line. "
+                   "documented row order. Single contradictions (18 kinds) must end with exit 1 and an ERROR line. "
                    "distinct_nontrivial = distinct (looms, threads) shapes + contradiction kinds exercised",
            "samples": [{"contradiction_kinds": sorted(kinds)}], "variants_run": nv, "contradictions_run": ncon,
            "systems": len(systems)}
